@@ -1,5 +1,6 @@
 """Code related to formatting"""
 
+import ast
 import textwrap
 
 import black
@@ -44,7 +45,18 @@ def collapse_trailing_parentheses(source: str) -> str:
     Returns:
         str: _description_
     """
-    return compactify.format_code(source)
+    compact_source = compactify.format_code(source)
+    if compact_source == source:
+        return source
+
+    # The lines of a multi-line string are not layout, changing them changes the string
+    try:
+        if ast.dump(ast.parse(compact_source)) != ast.dump(ast.parse(source)):
+            return source
+    except SyntaxError:
+        return source
+
+    return compact_source
 
 
 def _inspect_indentsize(line: str) -> int:
